@@ -27,6 +27,20 @@ NOTES = ("Every check: python3 run.py Cxx --tier quick|thorough. Lean theorems a
 NOT_APPLICABLE = {}
 
 CHECKS = {
+    "C07": {
+        "text": "Lean theorems: $subslice/$append/$appendSlice/$copySlice/$copyArray (transcribed) equal the Go slice specification for all "
+                "headers, index triples and window pairs (both overlap directions; reallocation iff len+n > cap; writes confined to "
+                "[len, len+n)); $clone copies exactly the array/struct spine and shares everything else; the ownership invariant (spines of "
+                "distinct storage locations are disjoint trees) and JS-run = Go-run hold for every program of the copy-context language "
+                "under any clone table that copies at each new-location context; the translator's real table (transcribed, tied to the "
+                "clone sites extracted with go/ast) does so except at four contexts - proved counterexamples = recorded findings. Tied to "
+                "the real prelude under Node vs model vs spec, and to generated alias-probe programs (random type shapes, 15 copy contexts, "
+                "8 aliasing templates) GopherJS plain+minify vs native Go vs the model's prediction.",
+        "note": "Not modelled in Lean (program tie vs native Go only): pointers ($get/$set, $indexPtr caches), closures, maps, the expression "
+                "translator. 5 known findings: boxing into an interface does not copy, range over an array value iterates the live array, "
+                "$growSlice shares struct/array elements, method values and interface dispatch run value-receiver methods on a shared object.",
+        "technique": "Lean 4 proof (model = spec; invariant by induction over statements; refinement) + differential correspondence (Node prelude, alias-probe programs vs native Go) + go/ast clone-site extraction",
+    },
     "C04": {
         "text": "Lean theorems over an abstract program (generic definitions with uses over their own and their nesting function's parameters, "
                 "seeds from non-generic code) and a transcription of the work-list instance collector (Scan + Finish + propagate with "
